@@ -26,6 +26,8 @@ CLAIMED = {
          "MIR-driver rules: gate dominance, dataflow provenance, table, twin agreement, IR-joined instance validation"),
  "C19": ("other", "Helpers attach param=<own log_as parameter> to decoder errors (followed into the map_err closure's captures) and return Ok untouched; error class by type argument over all decoders and auth parsing; cardinality conditions of only_item/optional_item; template provenance of the log-name slot in the endpoint macro; generated instance joined with the IR: 27 arguments x 4 handlers each report the IR argName and use the IR ids; handler invoked once after all extractions succeeded.", "4/C19",
          "MIR-driver rules: closure-capture dataflow, error class by type argument, control dependence, quote!-template provenance, IR-joined instance validation"),
+ "C09": ("other", "Sink typing over every safe-to-log channel (31 sinks in conjure_http, incl. function items used as values): causes must be string constants or data-free ADTs decided from the type definition (also foreign), type parameters/projections/value-bearing types are violations; with_safe_param table; generated handlers insert into SafeParams exactly the IR-safe arguments (independent fixpoint evaluation) with the decoded value and never the auth token; macro emits insertion only under arg.safe(); BearerToken Debug never reads the token.", "4/C09",
+         "MIR-driver rules: sink typing by resolved callee type arguments (incl. FnDef constants), ADT data-freeness, dataflow, IR join, template conditions"),
 }
 NA = {
  "C11": "Content negotiation quantifies over parsed header lists and numeric q-values; its truth lives in comparator outcomes, not in the shape of the code. The structural clauses in reach are decided under C06/C04; a mirror of this implementation's iterator chain would be a brittle proxy (DESIGN.md section 4/C11).",
@@ -62,7 +64,7 @@ def main():
         "engines": [
             {"name": "mirfacts", "path": "/verif/mirfacts", "serves_properties": sorted(CLAIMED), "kind_free_text": "rustc_private driver (nightly) dumping analysis-phase MIR, impl/ADT tables, evaluated constants as JSON facts, injected via RUSTC_WORKSPACE_WRAPPER under cargo +nightly check"},
             {"name": "rules", "path": "/verif/vf", "serves_properties": sorted(CLAIMED), "kind_free_text": "Python rule library: CFG, dominators, control dependence, copy-chain dataflow, decision tables, typestate; one module per property"},
-            {"name": "tmpl", "path": "/verif/tmpl", "serves_properties": ["C19"], "kind_free_text": "syn-based quote!-template extractor for conjure-codegen / conjure-macros"},
+            {"name": "tmpl", "path": "/verif/tmpl", "serves_properties": ["C09", "C19"], "kind_free_text": "syn-based quote!-template extractor for conjure-codegen / conjure-macros"},
         ],
         "checks": checks,
         "not_applicable": na,
